@@ -1138,11 +1138,20 @@ def oracle_c07(obs, rep, tier):
                 if s.get("pack"):
                     verdicts["pack:" + ("accepted" if g["exit"] == 0 else "rejected")] += 1
                     if g["exit"] != 0:
-                        observations.setdefault("rejected_packs", []).append({"pack": s["id"], "diagnostic": error_title(g["stderr"])})
+                        if g.get("timed_out"):
+                            caps["pavexc_timeouts"] = caps.get("pavexc_timeouts", 0) + 1
+                        observations.setdefault("rejected_packs", []).append(
+                            {"pack": s["id"], "members_served_alone": True,
+                             "diagnostic": "pavexc did not finish within the harness timeout (not a verdict)" if g.get("timed_out")
+                             else error_title(g["stderr"])})
                 else:
                     verdicts["table:" + ("accepted" if g["exit"] == 0 else "rejected")] += 1
                     if g["exit"] != 0:
-                        if g.get("panic") or g.get("timed_out"):
+                        if g.get("timed_out"):
+                            # the harness's own limit (machine load), never a verdict: reported as a cap
+                            reject_titles["pavexc did not finish within the harness timeout (not a verdict)"] += 1
+                            caps["pavexc_timeouts"] = caps.get("pavexc_timeouts", 0) + 1
+                        elif g.get("panic"):
                             m = re.search(r"in (compiler/[^\s,]+), line (\d+)", g.get("stderr") or "")
                             where = f"{m.group(1)}:{m.group(2)}" if m else "unknown"
                             reject_titles[f"pavexc PANIC at {where} (C09's business, not judged here)"] += 1
